@@ -50,7 +50,7 @@ func (h *vPubHook) OnPublish(cl *Client, pk packets.Packet) (packets.Packet, err
 // for every protocol version and QoS; admission and access are the OR over the hooks.
 func VerifC19Publish() {
 	ver := byte(vParam("VER", 5))
-	s := New(nil)
+	s := New(&Options{InlineClient: true})
 	var order []byte
 	n := 1 + vChoose(2)
 	var hooks []*vPubHook
@@ -64,6 +64,13 @@ func VerifC19Publish() {
 	ss := packets.Subscription{Filter: "t", Qos: 0}
 	s.Topics.Subscribe("sub", ss)
 	sub.State.Subscriptions.Add("t", ss)
+	// every route a publish can take: a client subscription, an inline subscription, a share group
+	inlineGot := 0
+	_ = s.Subscribe("t", 1, func(cl *Client, sub packets.Subscription, pk packets.Packet) { inlineGot++ })
+	shr, shc := vNewClient(s, "shr", 5)
+	sh := packets.Subscription{Filter: "$share/g/t", Qos: 0}
+	s.Topics.Subscribe("shr", sh)
+	shr.State.Subscriptions.Add("$share/g/t", sh)
 	q := byte(vConcrete(int(vByteIn("\x00\x01\x02")), 0, 2))
 	retain := vBool()
 	pk := packets.Packet{ProtocolVersion: ver, FixedHeader: packets.FixedHeader{Type: packets.Publish, Qos: q, Retain: retain}, TopicName: "t", Payload: []byte{1}}
@@ -73,6 +80,8 @@ func VerifC19Publish() {
 	_ = s.processPacket(pub, pk)
 	vFlush(sub)
 	vFlush(pub)
+	vFlush(shr)
+	sharedGot := vCountPublishes(shc, 5, "t")
 	// expected chain
 	want := []byte{1}
 	stopped := false
@@ -113,9 +122,13 @@ func VerifC19Publish() {
 	}
 	if stopped {
 		vAssert("rejected-publish-is-not-forwarded", got == 0)
+		vAssert("rejected-publish-reaches-no-inline-subscriber", inlineGot == 0)
+		vAssert("rejected-publish-reaches-no-share-group", sharedGot == 0)
 		vAssert("rejected-publish-is-not-retained", s.Topics.Retained.Len() == 0)
 	} else {
 		vAssert("accepted-publish-is-forwarded-once", got == 1)
+		vAssert("accepted-publish-reaches-the-inline-subscriber-once", inlineGot == 1)
+		vAssert("accepted-publish-reaches-the-share-group-once", sharedGot == 1)
 		if retain {
 			vAssert("accepted-retained-publish-is-stored", s.Topics.Retained.Len() == 1)
 		}
